@@ -561,7 +561,7 @@ int EGLPNUM_TYPENAME_ILLlib_chgbnd (
 		ILL_CLEANUP;
 	}
 
-	if (indx < 0 || indx > lp->O->nstruct)
+	if (indx < 0 || indx >= lp->O->nstruct)
 	{
 		QSlog("EGLPNUM_TYPENAME_ILLlib_chgbnd called with bad indx: %d", indx);
 		rval = 1;
@@ -637,7 +637,7 @@ int EGLPNUM_TYPENAME_ILLlib_getbnd (
 		ILL_CLEANUP;
 	}
 
-	if (indx < 0 || indx > lp->O->nstruct)
+	if (indx < 0 || indx >= lp->O->nstruct)
 	{
 		QSlog("EGLPNUM_TYPENAME_ILLlib_getbnd called with bad indx: %d", indx);
 		rval = 1;
@@ -689,6 +689,8 @@ int EGLPNUM_TYPENAME_ILLlib_getbnds_list (
 			{
 				QSlog("EGLPNUM_TYPENAME_ILLlib_getbnds_list collist[%d] = %d out "
 										"of range", j, collist[j]);
+				rval = 1;
+				ILL_CLEANUP;
 			}
 			col = qslp->structmap[collist[j]];
 			if (lower)
